@@ -29,14 +29,15 @@
    an empty list "()" ([loop] with allow_empty).
 
    Where the reader does NOT follow the parenthesis structure the model follows the code:
-   - parse_design reads six raw tokens after the name ("(" A X "(" B Y: the keywords A and B are
-     never looked at), resolves library Y / cell X, skips to the next ")" and leaves parse_body
-     on the following ")" : everything after "(design n (A X (B Y ..))" is never read. [body]
-     therefore STOPS at a design construct of that shape and reports how many tokens were
-     consumed ([elab_tokens] accepts a truncated / unbalanced file exactly when those tokens
-     exist); other shapes of design are [FeUnsupported].
    - parse_keywordMap's comment loop needs "((comment ..))": [FeUnsupported].
    - parse_member with more than one index always raises.
+   parse_design reads (design nameDef (cellRef x (libraryRef y)) ..) with both keywords and all
+   four parentheses checked; whatever follows the cellRef inside the design construct (status,
+   properties, comments, userData) is skipped up to the closing parenthesis of the design
+   (skip_until_next_construct) and not kept. parse_body then goes on: libraries declared after the
+   design are read, a second design is refused (check_for_multiples). The cell of the design is
+   looked up among the libraries read BEFORE the design construct. EdifParser.parse refuses
+   tokens after the closing parenthesis of (edif ..) ([elab_tokens]: exactly one balanced form).
 
    Outside the modelled subset ([FeUnsupported], counted by the harness, never compared):
    non-ASCII atoms, references / net names containing * or ? (used as wildcard patterns by the
@@ -44,8 +45,8 @@
 
    Every sibling check is made where the code makes it (add_port / add_child / add_definition /
    add_library after the construct is complete). A pin joined twice raises in Wire.connect_pin.
-   An (instance n) WITHOUT viewRef is accepted by the code and leaves the instance without a
-   reference ([in_ref] = None): finding C15-EDIF-bare-instance.
+   An (instance n) WITHOUT viewRef is refused (expect_begin_construct in parse_instance); an array
+   port of size < 1 is refused (parse_array).
    Termination: every function is structurally recursive on the list of children (no fuel).
    No proofs in this file. *)
 From Coq Require Import List NArith ZArith Bool Arith String.
@@ -363,7 +364,9 @@ Definition parse_port_head (nd : sexp) : result (nmd * N * bool) :=
       | [nd'; Atom a] =>
         do n <- parse_elemname nd';
         match int_tok a with
-        | Some z => if (max_bits <? z)%Z then Err FeUnsupported else Ok (n, Z.to_N z, true)
+        | Some z => if (max_bits <? z)%Z then Err FeUnsupported
+                    else if (z <? 1)%Z then Err FeShape                       (* "positive array size" *)
+                    else Ok (n, Z.to_N z, true)
         | None => Err FeShape
         end
       | _ => Err FeShape
@@ -469,8 +472,7 @@ Definition parse_instance (cx : ctx) (insts : list einst) (args : list sexp) : r
                 do v <- parse_viewref cx vargs; Ok (Some (fst v), snd v, rest')
               else if kweq (lower k) "viewlist" then Err FeNotImpl
               else Err FeShape
-            | SList _ :: _ => Err FeShape
-            | _ => Ok (None, [], rest)
+            | _ => Err FeShape                                (* the viewRef is not optional *)
             end;
     do props <- loop inst_step false [] (snd r);
     do name <- place (map (fun ip : einst => in_name (fst ip)) insts)
@@ -709,59 +711,44 @@ Definition parse_library (libs : list nvlib) (args : list sexp) : result nvlib :
 
 (* ---------------------------------------------------------------------------------------- *)
 (* design, body, file *)
-Definition ntoks (x : sexp) : nat := List.length (flatten x).
-Definition ntoksl (l : list sexp) : nat := List.length (flat_map flatten l).
-
-(* the name of the design: (rename i "s" extra ..) makes the raw tokenizer.next() calls of
-   parse_design cross the parenthesis structure *)
-Definition parse_design_name (nd : sexp) : result nmd :=
-  match nd with
-  | SList (k :: Atom a :: Str s :: _ :: _) =>
-    if is_kw "rename" k && ident_tok_ok a && str_tok_ok s then Err FeUnsupported else Err FeShape
-  | _ => parse_elemname nd
-  end.
-
-(* result: the top instance and the number of tokens read after the keyword "design" *)
-Definition parse_design (libs : list nvlib) (args : list sexp) : result (nvtop * nat) :=
+(* (design nameDef (cellRef x (libraryRef y)) ..): the constructs after the cellRef are skipped *)
+Definition parse_design (libs : list nvlib) (args : list sexp) : result nvtop :=
   match args with
-  | nd :: SList (Atom _ :: Atom x :: SList (Atom _ :: Atom y :: junk) :: more) :: _ =>
-    do n <- parse_design_name nd;
-    if has_wild x || has_wild y then Err FeUnsupported else
+  | nd :: SList [k1; cr; SList [k2; lr]] :: _ =>
+    do n <- parse_elemname nd;
+    if negb (is_kw "cellref" k1) then Err FeShape else
+    do x <- parse_nameref cr;
+    if negb (is_kw "libraryref" k2) then Err FeShape else
+    do y <- parse_nameref lr;
     match find_lib y libs with
     | None => Err FeUndeclared
     | Some L =>
       match find_cell x (li_cells L) with
       | None => Err FeUndeclared
-      | Some C =>
-        match more with
-        | [] => Ok (mktop (nm_name n) (nm_ident n) (li_ident L) (ce_ident C),
-                    (ntoks nd + 6 + ntoksl junk + 2)%nat)
-        | SList _ :: _ => Err FeUnsupported             (* parse_body would go on inside the cellRef *)
-        | _ => Err FeShape
-        end
+      | Some C => Ok (mktop (nm_name n) (nm_ident n) (li_ident L) (ce_ident C))
       end
     end
-  | _ => Err FeUnsupported
+  | _ => Err FeShape
   end.
 
-(* parse_body; cnt = number of tokens before the current child *)
-Fixpoint body (libs : list nvlib) (st : bool) (cnt : nat) (l : list sexp)
-  : result (list nvlib * option (nvtop * nat)) :=
-  match l with
-  | [] => Ok (libs, None)
-  | (SList (Atom a :: args) as x) :: l' =>
-    let k := lower a in
-    if kweq k "status" then
-      if st then Err FeMultiple else do _ <- chk_status args; body libs true (cnt + ntoks x)%nat l'
-    else if kweq k "library" || kweq k "external" then
-      do L <- parse_library libs args; body (libs ++ [L]) st (cnt + ntoks x)%nat l'
-    else if kweq k "design" then
-      do t <- parse_design libs args; Ok (libs, Some (fst t, (cnt + 2 + snd t)%nat))
-    else if kweq k "comment" then do _ <- chk_comment args; body libs st (cnt + ntoks x)%nat l'
-    else if kweq k "userdata" then Err FeNotImpl
-    else Err FeShape
-  | _ :: _ => Err FeShape
-  end.
+(* parse_body: the libraries added so far, has_status, the top instance set by a design construct *)
+Record bst := mkbst { bs_libs : list nvlib; bs_status : bool; bs_top : option nvtop }.
+
+Definition body_step (s : bst) (k : str) (args : list sexp) : result bst :=
+  if kweq k "status" then
+    if bs_status s then Err FeMultiple else do _ <- chk_status args; Ok (mkbst (bs_libs s) true (bs_top s))
+  else if kweq k "library" || kweq k "external" then
+    do L <- parse_library (bs_libs s) args; Ok (mkbst (bs_libs s ++ [L]) (bs_status s) (bs_top s))
+  else if kweq k "design" then
+    match bs_top s with
+    | Some _ => Err FeMultiple
+    | None => do t <- parse_design (bs_libs s) args; Ok (mkbst (bs_libs s) (bs_status s) (Some t))
+    end
+  else if kweq k "comment" then do _ <- chk_comment args; Ok s
+  else if kweq k "userdata" then Err FeNotImpl
+  else Err FeShape.
+
+Definition body (l : list sexp) : result bst := loop body_step false (mkbst [] false None) l.
 
 Definition chk_keywordmap (x : sexp) : result unit :=
   match x with
@@ -776,8 +763,7 @@ Definition chk_keywordmap (x : sexp) : result unit :=
   | _ => Err FeShape
   end.
 
-(* the netlist and, when the reader stopped at a design construct, the number of tokens it read *)
-Definition elab_file_ext (d : sexp) : result (nvfile * option nat) :=
+Definition elab_file (d : sexp) : result nvfile :=
   if negb (atoms_ascii d) then Err FeUnsupported else
   match d with
   | SList (e :: nd :: ver :: lvl :: km :: items) =>
@@ -786,16 +772,14 @@ Definition elab_file_ext (d : sexp) : result (nvfile * option nat) :=
     do _ <- chk_int_form "edifversion" 3 ver;
     do _ <- chk_int_form "ediflevel" 1 lvl;
     do _ <- chk_keywordmap km;
-    do r <- body [] false (2 + ntoks nd + ntoks ver + ntoks lvl + ntoks km)%nat items;
-    Ok (mkfile (nm_name n) (nm_ident n) (fst r) (option_map fst (snd r)), option_map snd (snd r))
+    do r <- body items;
+    Ok (mkfile (nm_name n) (nm_ident n) (bs_libs r) (bs_top r))
   | _ => Err FeShape
   end.
 
-Definition elab_file (d : sexp) : result nvfile := do r <- elab_file_ext d; Ok (fst r).
-
 (* ---------------------------------------------------------------------------------------- *)
-(* from tokens: the first parenthesised form; lists still open at the end of the input are closed
-   and counted *)
+(* from tokens: the first parenthesised form, the number of lists still open at the end of the
+   input (closed by [close_all]) and the tokens that follow the form *)
 Definition quoted (t : str) : bool :=
   match t with
   | c :: r => N.eqb c c_dq && match rev r with c' :: _ => N.eqb c' c_dq | [] => false end
@@ -810,34 +794,34 @@ Fixpoint close_all (top : list sexp) (stack : list (list sexp)) : sexp :=
   end.
 
 (* top = items of the innermost open list (reversed), stack = the enclosing open lists *)
-Fixpoint read_open (toks : list str) (top : list sexp) (stack : list (list sexp)) : sexp * nat :=
+Fixpoint read_open (toks : list str) (top : list sexp) (stack : list (list sexp)) : sexp * nat * list str :=
   match toks with
-  | [] => (close_all top stack, S (List.length stack))
+  | [] => (close_all top stack, S (List.length stack), [])
   | t :: toks' =>
     if str_eqb t t_lp then read_open toks' [] (top :: stack)
     else if str_eqb t t_rp then
       match stack with
-      | [] => (SList (rev top), O)
+      | [] => (SList (rev top), O, toks')
       | next :: stack' => read_open toks' (SList (rev top) :: next) stack'
       end
     else read_open toks' (mk_tok t :: top) stack
   end.
 
-Definition read_first (toks : list str) : option (sexp * nat) :=
+Definition read_first (toks : list str) : option (sexp * nat * list str) :=
   match toks with
   | t :: toks' => if str_eqb t t_lp then Some (read_open toks' [] []) else None
   | [] => None
   end.
 
+(* EdifParser.parse: the (edif ..) construct, then expect_end_of_input. A file whose parentheses
+   are not closed makes the reader run out of tokens (StopIteration) unless it raised before. *)
 Definition elab_tokens (toks : list str) : result nvfile :=
   match read_first toks with
   | None => Err FeLex
-  | Some (d, missing) =>
-    do r <- elab_file_ext d;
-    match snd r with
-    | None => if Nat.eqb missing 0 then Ok (fst r) else Err FeEof
-    | Some k => if (k <=? List.length toks)%nat then Ok (fst r) else Err FeEof
-    end
+  | Some (d, missing, rest) =>
+    do n <- elab_file d;
+    if negb (Nat.eqb missing 0) then Err FeEof
+    else match rest with [] => Ok n | _ :: _ => Err FeShape end
   end.
 
 Definition elab_text (s : str) : result nvfile := elab_tokens (tokenize s).
